@@ -30,7 +30,7 @@ func (check) Cases(tier string) int {
 }
 
 func (check) Rule() string {
-	return "histories of 5-40 operations (SetBool/Int/Uint/Float/String, SetChild of a fresh config, Remove, default Merge, Child) over 16 overlapping addresses in both spellings (name+idx and dotted), with and without PathSep, applied to the root and to child handles obtained mid-history (handles of containers, of nil settings, and handles kept across Merges that merge into the container they view); after EVERY step the whole tree is compared with the tree-store model (frame condition), every handle must still show its place, and 6 random addresses plus 2 addresses of existing settings are probed through String/Int/Uint/Float/Bool/Has/Child/CountField(address, with the separator: top-level names, dotted paths, index names)/IsDict/IsArray; writes are read back through the equivalent spelling. Non-trivial = history with at least 3 successful mutations touching overlapping addresses; distinct = distinct operation sequence."
+	return "histories of 5-40 operations (SetBool/Int/Uint/Float/String; SetChild of a fresh config, of a child handle - also the receiver itself or a config holding it -, of the history's own root into itself or one of its descendants, of a nil *Config; Remove; Merge of data or of a config of the history itself - the target, a part of it, a config holding it, or a disjoint one - under the default, append, prepend, list-replace and replace policies; Child) over 16 overlapping addresses in both spellings (name+idx and dotted), one write in three at exactly the end of the addressed list, with and without PathSep, one history in five with a lowered MaxIdx(2|3) on every call and one in sixty starting from a list of more than 1024 elements (appending and overwriting above the maximum index), applied to the root and to child handles obtained mid-history (handles of containers, of nil settings, and handles kept across Merges that merge into the container they view); after EVERY step the whole tree is compared with the tree-store model (frame condition), every handle must still show its place, and 6 random addresses plus 2 addresses of existing settings are probed through String/Int/Uint/Float/Bool/Has/Child/CountField(address, with the separator: top-level names, dotted paths, index names)/IsDict/IsArray; writes are read back through the equivalent spelling. Non-trivial = history with at least 3 successful mutations touching overlapping addresses; distinct = distinct operation sequence."
 }
 
 func (check) Assumptions() []string {
@@ -39,7 +39,11 @@ func (check) Assumptions() []string {
 		"Merge on a plain tree (tree.go): where both sides are containers the contents are merged into the destination's container, which stays the object it was - a handle obtained before is a live view afterwards too; a handle is only given up when the setting it views was replaced (by a primitive, by a write through a nil, by a container over a nil) or removed; nil merged onto nil is nil",
 		"a config returned by Child for a nil setting is a child config like any other: the first write through it must be visible through the parent (the nil becomes that container); of several handles taken from the same nil only the first one written through is followed",
 		"CountField(address) is asked like a getter (same options): it must find what the getters find at the address; the number for an empty container is not pinned down (0 or 1), except for a list (without named settings) that lost its last element through Remove in this history: 0",
-		"not demanded: error wording; negative indices (C07/C20); IsDict/IsArray for a part emptied by removals",
+		"Merge policies on a plain tree: the settings that stay in the tree stay the objects they were (elements of a list appended or prepended to only move, child handles of them stay live); a replaced list or dictionary consists of new settings (handles of the old ones are given up)",
+		"a config handed to SetChild or Merge that is the receiver, a part of it or a config holding it is stored / merged as the finite snapshot of what it holds when the call is made; the stored child is asked by identity (Child returns the stored object) because reads of a config that holds itself do not return",
+		"SetChild(nil) may be refused (nothing changes) or store a nil setting; above the maximum index a write beyond the end of the list (a jump) may be refused or pad - C07/C20 decide that, the history follows the library -, a write at the end or below it must succeed",
+		"outside, not generated: Merge operands with dotted or index keys (how the padding nils of the normalised operand meet existing settings is C01's nil rule); numbers above MaxIdx or with EnableNumKeys spelled as a segment of a name (C20: such a segment is a name, so it is no spelling of the idx argument); settings with the empty name (the API documents name \"\" as 'idx addresses the list'); references (VarExp) below written addresses",
+		"not demanded: error wording and error classes by depth; negative indices (C07/C20); IsDict/IsArray for a part emptied by removals (also whether a copy keeps the kind of an emptied container); CountField of an empty dictionary",
 		"getter conversions only on small values (boundaries are C03)",
 	}
 }
@@ -77,6 +81,9 @@ type hist struct {
 	// stepClass: signature class of the operation of the current step, for the
 	// deviations seen right after it ("" = by the deviation itself)
 	stepClass string
+	// overlapBefore: class of the last Merge of a config overlapping its target, overlapStep: its step
+	overlapBefore string
+	overlapStep   int
 	// list elements moved up by a prepending Merge (number of the last such step)
 	shifted map[*model.Node]int
 	// containers a Merge merged into in place (number of the last such step) / nil nodes that came from nil merged onto nil
@@ -94,7 +101,25 @@ type hist struct {
 
 func (h *hist) fail(sig, format string, a ...interface{}) {
 	h.failed = true
-	h.res.Violate(sig, "%s; sep=%q%s history=[%s]", fmt.Sprintf(format, a...), h.sep, h.optNote(), strings.Join(h.log, "; "))
+	h.res.Violate(h.later(sig), "%s; sep=%q%s history=[%s]", fmt.Sprintf(format, a...), h.sep, h.optNote(), strings.Join(h.log, "; "))
+}
+
+// later: a deviation without a cause of its own, in a history that merged a
+// config overlapping the target in an EARLIER step, is counted to that class
+// (the two trees may have parted there in a way the canonical form hides).
+func (h *hist) later(sig string) string {
+	if h.overlapBefore == "" || h.overlapStep == h.stepNo {
+		return sig
+	}
+	switch sig {
+	case "state-mismatch", "state-mismatch-after-write-through-child", "child-view-stale", "write-through-child-not-visible-in-parent",
+		"getter-outcome", "getter-value", "getter-found-missing", "has-mismatch", "child-outcome", "getfields", "isdict", "isarray", "remove-outcome", "set-outcome":
+		return h.overlapBefore + ":seen-later"
+	}
+	if strings.HasPrefix(sig, "countfield") {
+		return h.overlapBefore + ":seen-later"
+	}
+	return sig
 }
 
 func (h *hist) optNote() string {
@@ -107,7 +132,7 @@ func (h *hist) optNote() string {
 // note reports a deviation of an observer that leaves the model and the
 // library in step: the history goes on (other deviations stay reachable).
 func (h *hist) note(sig, format string, a ...interface{}) {
-	h.res.Violate(sig, "%s; sep=%q%s history=[%s]", fmt.Sprintf(format, a...), h.sep, h.optNote(), strings.Join(h.log, "; "))
+	h.res.Violate(h.later(sig), "%s; sep=%q%s history=[%s]", fmt.Sprintf(format, a...), h.sep, h.optNote(), strings.Join(h.log, "; "))
 }
 
 func (h *hist) addr() (string, int) {
@@ -224,8 +249,12 @@ func (h *hist) step() {
 		var err error
 		var val *model.Node
 		var what string
-		var ownRoot, nilArg bool
-		switch r.Intn(10) {
+		var ownRoot, nilArg, skipSet bool
+		kind := r.Intn(10)
+		if kind == 8 && r.Intn(3) > 0 {
+			kind = 7 // (a config that holds itself ends the history on a tree that links it)
+		}
+		switch kind {
 		case 0:
 			x := int64(r.Intn(100) - 50)
 			err = t.c.SetInt(name, idx, x, h.o...)
@@ -285,9 +314,11 @@ func (h *hist) step() {
 			val, what = model.Nil(), "SetChild(nil)"
 			h.res.Ev("setchild_of_nil_config", 1)
 			if p, pv, _ := harness.Safe(func() { err = t.c.SetChild(name, idx, nil, h.o...) }); p {
+				// (before anything was touched: the history goes on, nothing may have changed)
 				h.log = append(h.log, fmt.Sprintf("%s.%s@(%q,%d)", t.desc, what, name, idx))
-				h.fail("panic:SetChild:nil-config", "panic %q", pv)
-				return
+				h.note("panic:SetChild:nil-config", "panic %q", pv)
+				h.res.SetAdd("op", "set-rejected")
+				skipSet = true
 			}
 		default:
 			sub := smallTree(r)
@@ -308,6 +339,9 @@ func (h *hist) step() {
 			}
 		}
 		h.res.Eval(1)
+		if skipSet {
+			break
+		}
 		h.log = append(h.log, fmt.Sprintf("%s.%s@(%q,%d)", t.desc, what, name, idx))
 		if nilArg && err != nil {
 			// refused: nothing may have changed (the frame comparison below)
@@ -428,6 +462,7 @@ func (h *hist) step() {
 			}
 			if rel == "ancestor" || rel == "descendant" {
 				h.stepClass = "merge-operand-overlaps-target:" + rel
+				h.overlapBefore, h.overlapStep = h.stepClass, h.stepNo
 			}
 			h.res.Ev("merge_of_config_operand:"+rel, 1)
 			sub = h.copyTree(src.n)
@@ -508,23 +543,16 @@ func (h *hist) step() {
 		return
 	}
 	if want := h.root.n.CanonTop(); got != want {
-		sig := "state-mismatch"
+		sig := h.sigFor(t, "state-mismatch")
 		if t.c != h.root.c {
-			sig = h.staleClass(t, "state-mismatch-after-write-through-child")
-		}
-		if h.stepClass != "" {
-			sig = h.stepClass
+			sig = h.sigFor(t, "state-mismatch-after-write-through-child")
 		}
 		h.fail(sig, "tree differs after step: got %s want %s", got, want)
 		return
 	}
 	if t != h.root && mutated && model.Reachable(h.root.n, t.n) {
 		if why := h.hiddenFromParent(t, mustHave); why != "" {
-			sig := h.staleClass(t, "write-through-child-not-visible-in-parent")
-			if h.stepClass != "" {
-				sig = h.stepClass
-			}
-			h.fail(sig, "%s", why)
+			h.fail(h.sigFor(t, "write-through-child-not-visible-in-parent"), "%s", why)
 			return
 		}
 	}
@@ -542,11 +570,7 @@ func (h *hist) step() {
 			return
 		}
 		if w := x.n.CanonTop(); g != w {
-			sig := h.staleClass(x, "child-view-stale")
-			if h.stepClass != "" {
-				sig = h.stepClass
-			}
-			h.fail(sig, "handle %s shows %s, the tree holds %s there", x.desc, g, w)
+			h.fail(h.sigFor(x, "child-view-stale"), "handle %s shows %s, the tree holds %s there", x.desc, g, w)
 			return
 		}
 	}
@@ -599,6 +623,16 @@ func (x *handle) obtainedThrough(t *handle) bool {
 		}
 	}
 	return false
+}
+
+// sigFor: the signature of a deviation seen at / through the handle x right
+// after the step: a detached handle names its own cause, otherwise the class of
+// the step's operation (if it has one), otherwise the deviation itself.
+func (h *hist) sigFor(x *handle, base string) string {
+	if s := h.staleClass(x, base); s != base || h.stepClass == "" {
+		return s
+	}
+	return h.stepClass
 }
 
 // lenAt returns the length of the list part of the container addressed by
